@@ -18,12 +18,13 @@ KINDS = ('plain', 'gen', 'func', 'meth')
 class Script:
     """behaviour of one doer: at recur step i (0-based) it performs faults[i] if present, returns `ret` when
     i >= fin, else yields tocks[i] (None/0 = asap).  `fin`, tocks, ret may be symbolic."""
-    def __init__(self, name, fin=0, ret=True, tocks=(), enter_raises=False, tock0=0.0):
+    def __init__(self, name, fin=0, ret=True, tocks=(), enter_raises=False, tock0=0.0, enter_returns=False):
         self.name = name
         self.fin = fin
         self.ret = ret
         self.tocks = list(tocks)
         self.enter_raises = enter_raises
+        self.enter_returns = enter_returns   # generator-function kinds only: return `ret` before the first yield
         self.tock0 = tock0          # the doer's own .tock attribute (what plain doers yield by default)
         self.faults = {}            # step -> (act, arg)
 
@@ -46,10 +47,13 @@ class World:
         self.host = {}       # doer name -> scheduler (Doist/DoDoer) it acts upon
         self.doers = {}      # name -> doer object
         self.dogs = []       # generator objects created (leak detection)
-        self.on_recur = None
+        self.watch_done = ()  # names whose .done flag is snapshotted at every recur event
+        self.flags = []
 
     def ev(self, name, what, tyme=None):
         self.trace.append((name, what, tyme))
+        if what == 'recur' and self.watch_done:
+            self.flags.append((name, tuple((n, done_of(self.doers[n])) for n in self.watch_done)))
 
     def perform(self, name, act, arg):
         if act == RAISE:
@@ -89,6 +93,7 @@ class PlainDoer(doing.Doer):
         self.step += 1
         self.w.perform(self.s.name, act, arg)
         if act == RET:
+            self.w.ev(self.s.name, 'return', True)
             return arg if arg else True    # a plain recur can only finish with a truthy value
         t = self.s.tock_after(step)
         self.tock = t if t is not None else 0.0
@@ -119,6 +124,7 @@ class GenDoer(PlainDoer):
             self.step += 1
             self.w.perform(self.s.name, act, arg)
             if act == RET:
+                self.w.ev(self.s.name, 'return', arg)
                 return arg
             t = self.s.tock_after(step)
 
@@ -132,6 +138,10 @@ def gfun(tymth, tock=0.0, world=None, script=None, **opts):
         w.ev(s.name, 'enter', tymth())
         if s.enter_raises:
             raise Boom(s.name)
+        if s.enter_returns:
+            w.ev(s.name, 'return', s.ret)
+            ret = s.ret
+            return ret
         t = tock
         while True:
             tyme = yield t
@@ -141,6 +151,7 @@ def gfun(tymth, tock=0.0, world=None, script=None, **opts):
             step += 1
             w.perform(s.name, act, arg)
             if act == RET:
+                w.ev(s.name, 'return', arg)
                 ret = arg
                 break
             t = s.tock_after(cur)
